@@ -103,6 +103,14 @@ static inline void F_(_reserve)(MP_ *P, M_ *m, uint64_t n) { (void)P; if (n > m-
 static inline void F_(_max_load_factor)(MP_ *P, M_ *m, float f) { (void)P; m->mlf = f; }
 #endif
 
+/* specification helper: number of live nodes */
+static inline uint64_t F_(_pool_alive)(const MP_ *P)
+{
+    uint64_t n = 0;
+    for (cstl_iter i = 0; i < CSTL_NP; i++) if (P->alive[i]) n++;
+    return n;
+}
+
 #undef M_
 #undef MP_
 #undef MN_
